@@ -40,6 +40,15 @@ def rand_unitary(nr, n, kind):
         # rotate so that entry (0,0) is tiny
         th = numpy.arctan2(abs(Q2[0, 0]), abs(Q2[0, 1])) if n > 1 else 0
         return Pm @ Q2
+    if kind == "near-permutation":
+        # a non-trivial permutation (with phases) times a rotation by 1e-5 ... 1e-10: the leading minors are tiny but
+        # not zero, so an elimination that skips the row exchanges works with factors of 1e5 ... 1e10
+        from scipy.linalg import expm
+        P = numpy.eye(n)[numpy.roll(numpy.arange(n), 1 + nr.randint(max(n - 1, 1)))] if n > 1 else numpy.eye(1)
+        ph = numpy.exp(1j * nr.uniform(0, 2 * numpy.pi, n))
+        A = nr.randn(n, n) + 1j * nr.randn(n, n)
+        K = (A - A.conj().T) * 10.0 ** (-nr.randint(5, 11))
+        return ((P * ph) @ expm(K)).astype(numpy.complex128)
     if kind == "near-identity":
         A = nr.randn(n, n) * 1e-3
         K = A - A.T
@@ -96,7 +105,8 @@ def run(ctx):
     for case in range(ncases):
         norb = rng.choice([1, 2, 2, 3]) if quick else rng.choice([1, 2, 3, 3])
         form = rng.choice(["restricted", "restricted", "blockdiag", "spinmix"])
-        kind = rng.choice(["generic", "real", "permutation", "pivot", "near-identity", "reflection", "signed-permutation"])
+        kind = rng.choice(["generic", "real", "permutation", "pivot", "near-identity", "reflection", "signed-permutation",
+                           "near-permutation", "near-permutation"])
         if form == "spinmix":
             wk = "spinbroken"
             R = rand_unitary(nr, 2 * norb, kind)
